@@ -522,7 +522,9 @@ end
 /-- `MacroProgram(body, mode, …)`: the whole template → (body node, macros) -/
 def buildProgram (c : BCfg) (textMode : Bool) (src : Str) : CRes (Node × List (Str × Node)) := do
   let toks := if textMode then iterText src else iterXmlWith c.rx.xmlSpe src
-  let items ← parseTokens c.rx c.restrictedNamespace toks
+  -- in text mode every token is text (before the D-20a fix the token went through `identify`)
+  let items ← if textMode && !c.q.textModeIdentify then pure (toks.map Item.text)
+              else parseTokens c.rx c.restrictedNamespace toks
   let init : BState := { switches := [], useMacro := [], interpolation := [true], macros := [], last := some [],
                          whitespace := [10], nextId := 1 }
   let (nodes, st) ← visitItems c (src.length + 4) items init
